@@ -341,6 +341,114 @@ let do_load (args : string list) : string =
      | M.Panic _ -> "PANIC")
   | _ -> "BADCASE"
 
+(* ------------------------------------------------------------ builder *)
+let berr_name (e : M.berr) : string =
+  match e with
+  | M.BNestedFunction -> "NestedFunction" | M.BMismatchedFunctionEnd -> "MismatchedFunctionEnd"
+  | M.BDetachedFunctionParameter -> "DetachedFunctionParameter" | M.BDetachedBlock -> "DetachedBlock"
+  | M.BNestedBlock -> "NestedBlock" | M.BMismatchedTerminator -> "MismatchedTerminator"
+  | M.BDetachedInstruction -> "DetachedInstruction" | M.BEmptyInstructionList -> "EmptyInstructionList"
+  | M.BFunctionNotFound -> "FunctionNotFound" | M.BBlockNotFound -> "BlockNotFound"
+
+let list_inner (t : string) : string list =
+  let n = String.length t in
+  if n < 2 || t.[0] <> '[' || t.[n - 1] <> ']' then failwith "list" else
+  let s = String.sub t 1 (n - 2) in
+  if s = "" then [] else String.split_on_char ',' s
+
+let optw_of (t : string) : n option = if t = "_" then None else Some (n_of_hex t)
+let optnat_of (t : string) : nat option = if t = "_" then None else Some (nat_of_int (int_of_string t))
+let point_of_tok (t : string) : M.ipoint =
+  if t = "end" then M.IEnd else if t = "begin" then M.IBegin
+  else if starts_with "fe" t then M.IFromEnd (nat_of_int (int_of_string (after "fe" t)))
+  else if starts_with "fb" t then M.IFromBegin (nat_of_int (int_of_string (after "fb" t)))
+  else failwith "point"
+let str_of_tok (t : string) : n list = if starts_with "S" t then bytes_of_hex (after "S" t) else failwith "str"
+
+let barg_of (pt : M.ptype) (t : string) : M.barg =
+  match pt with
+  | M.PW -> M.AW (n_of_hex t)
+  | M.POptW -> M.AOptW (optw_of t)
+  | M.PListW -> M.AListW (List.map n_of_hex (list_inner t))
+  | M.POps -> M.AOps (List.map operand_of_text (list_inner t))
+  | M.PPairsWW -> M.APairsWW (List.map (fun x -> match String.split_on_char ':' x with [a; b] -> (n_of_hex a, n_of_hex b) | _ -> failwith "pair") (list_inner t))
+  | M.PPairsOW -> M.APairsOW (List.map (fun x -> match String.split_on_char ':' x with [a; b] -> (operand_of_text a, n_of_hex b) | _ -> failwith "pair") (list_inner t))
+  | M.PStr -> M.AStr (str_of_tok t)
+  | M.POptStr -> M.AOptStr (if t = "_" then None else Some (str_of_tok t))
+  | M.PPoint -> M.APoint (point_of_tok t)
+
+let sel_text (o : nat option) : string =
+  match o with None -> "-" | Some k -> let rec go = function M.O -> 0 | M.S x -> 1 + go x in string_of_int (go k)
+
+let do_bld (toks : string list) : string =
+  let rec split acc cur = function
+    | [] -> List.rev (if cur = [] then acc else List.rev cur :: acc)
+    | "|" :: r -> split (if cur = [] then acc else List.rev cur :: acc) [] r
+    | t :: r -> split acc (t :: cur) r in
+  let calls = split [] [] toks in
+  let st = ref M.bnew in
+  let out = ref [] in
+  let mtext s = module_text s.M.bs_header s.M.bs_module in
+  (try
+    List.iter (fun c ->
+      match c with
+      | [] -> ()
+      | name :: a ->
+        let arg k = List.nth a k in
+        let (call, kind) =
+          match name with
+          | "begin_function" -> (M.CBeginFunction (n_of_hex (arg 0), optw_of (arg 1), n_of_hex (arg 2), n_of_hex (arg 3)), `OkW)
+          | "end_function" -> (M.CEndFunction, `OkU)
+          | "function_parameter" -> (M.CFunctionParameter (n_of_hex (arg 0)), `OkW)
+          | "begin_block" -> (M.CBeginBlock (optw_of (arg 0)), `OkW)
+          | "begin_block_no_label" -> (M.CBeginBlockNoLabel (optw_of (arg 0)), `OkW)
+          | "select_function" -> (M.CSelectFunction (optnat_of (arg 0)), `OkU)
+          | "select_block" -> (M.CSelectBlock (optnat_of (arg 0)), `OkU)
+          | "pop_instruction" -> (M.CPop, `Inst)
+          | "id" -> (M.CId, `Id)
+          | "set_version" -> (M.CSetVersion (n_of_hex (arg 0), n_of_hex (arg 1)), `Unit)
+          | _ ->
+            (match M.bld_find (coq_string_of name) with
+             | None -> raise Exit
+             | Some d ->
+               let env = List.mapi (fun k (pn, pt) -> (pn, barg_of pt (arg k))) d.M.d_params in
+               let kind = match d.M.d_ret with
+                 | M.RetOkId -> `OkW | M.RetOkUnit | M.RetResult -> `OkU | M.RetId -> `Id | M.RetUnit -> `Unit in
+               (M.CGen (coq_string_of name, env), kind)) in
+        let before = mtext !st in
+        (match M.bld_step !st call with
+         | None -> raise Exit
+         | Some (s1, o) ->
+           st := s1;
+           let res = match o, kind with
+             | M.BPanic, _ -> "PANIC"
+             | M.BFail e, _ -> "err:" ^ berr_name e
+             | M.BVal v, `OkW -> "ok:" ^ hex_of_n v
+             | M.BVal v, `Id -> "id:" ^ hex_of_n v
+             | M.BInst i, _ -> "inst:" ^ inst_text i
+             | _, `OkU -> "ok" | _, `OkW -> "ok" | _, `Unit -> "unit" | _, `Id -> "unit" | _, `Inst -> "ok" in
+           if res = "PANIC" then (out := "PANIC" :: !out; raise Not_found) else
+           let line = Printf.sprintf "%s,%s,%s" res (sel_text s1.M.bs_fn) (sel_text s1.M.bs_blk) in
+           let line = if starts_with "err:" res then line ^ Printf.sprintf ",same=%d" (if mtext s1 = before then 1 else 0) else line in
+           out := line :: !out)) calls;
+    let (h, m) = M.finish !st in
+    let words = M.assemble_module h m in
+    let mt = module_text h m in
+    let l =
+      let (w2, r2) = M.load_case (List.concat_map (fun x -> M.bytes_of_word x) words) in
+      if w2.M.lw_panic then "PANIC" else
+      (match r2 with
+       | M.Ok _ -> let t2 = module_text w2.M.lw_state.M.l_header w2.M.lw_state.M.l_module in
+                   if t2 = mt then "same" else "DIFF " ^ t2
+       | M.Er (M.PConsumerError c) -> "E:LERR:" ^ lerr_of_code c
+       | M.Er e -> "E:" ^ perr_text e
+       | M.Panic _ -> "PANIC") in
+    Printf.sprintf "%s || M=%s || A=%s || L=%s" (String.concat " " (List.rev !out)) mt (join_n "," words) l
+  with
+  | Exit -> "BADCALL"
+  | Not_found -> String.concat " " (List.rev !out)
+  | Failure _ | Invalid_argument _ -> "BADCALL")
+
 let c19long (args : string list) : string =
   match args with
   | [nh] ->
@@ -371,6 +479,7 @@ let () =
         | "parse" :: r -> do_parse r
         | "parsew" :: r -> do_parse r
         | "feed" :: r -> do_feed r
+        | "bld" :: r -> do_bld r
         | "load" :: r -> do_load r
         | _ -> "BADCASE" in
       print_string out; print_char '\n'
